@@ -7,7 +7,7 @@ CONSTANTS
   Fix8 = TRUE
   OneShotLate = FALSE
   Masks <- OnlyR
-  OpKinds <- OpsInit
+  OpKinds <- OpsInitArm
   MaxOps = 1
   MaxPass = 1
 SPECIFICATION MCSpec
